@@ -23,6 +23,9 @@ def gen_cases(r, n):
     rnd = random.Random(r.seed * 8191 + 10)
     cases = []
     for fam, magics in FAM_MAGICS.items():
+        for mi, (bs, ft, kinds) in enumerate(MG.matrix_streams(fam)):
+            r.count("matrix:" + fam)
+            cases.append({"magic": magics[mi % len(magics)], "bytes": bs, "ft": ft, "fam": fam})
         for _ in range(n):
             bs, ft, kinds = MG.stream(rnd, fam)
             for k, v in kinds.items():
@@ -48,7 +51,7 @@ def validate_spec(r):
     total = 0
     for v, magic in ORACLE_MAGIC.items():
         fam = MG.fam_of_version([int(x) for x in v.split(".")])
-        cases = []
+        cases = [{"bytes": bs, "ft": ft} for bs, ft, _ in MG.matrix_streams(fam)]
         for _ in range(n):
             bs, ft, _ = MG.stream(rnd, fam)
             cases.append({"bytes": bs, "ft": ft})
